@@ -237,6 +237,13 @@ class Interp:
         if k == "assign":
             self.assign_place(n["l"], _copyval(self.ev(n["r"], env, depth)), env, depth)
             return None
+        if k == "mcall" and n["method"] in ("push_str", "push") and len(n["args"]) == 1 and strip(n["recv"]).k in ("field", "path"):
+            cur = self.ev(n["recv"], env, depth)
+            if isinstance(cur, str):
+                a_ = self.ev(n["args"][0], env, depth)
+                if isinstance(a_, str):
+                    self.assign_place(n["recv"], cur + a_, env, depth)     # String::push_str / push on a local
+                    return None
         if k == "mcall" and n["method"] in ("take", "replace") and strip(n["recv"]).k in ("field", "path") and len(n["args"]) == (0 if n["method"] == "take" else 1):
             old = self.ev(n["recv"], env, depth)
             if old is None or (isinstance(old, tuple) and len(old) == 2 and old[0] == "some"):
